@@ -24,7 +24,7 @@ EXEMPT = {
     ('EvalContext.set_default_eval_symbols', 'EvalContext._default_eval_symbols'): 'explicit process-wide configuration API (documented as such)',
     ('ConfigScalarMeta.__init__', 'ConfigScalarMeta._bases'): 'class creation time (import), one write per class object',
     ('ConfigScalarMeta.__init__', 'ConfigScalarMeta._dict'): 'class creation time (import), one write per class object',
-    ('ConfigScalarMeta.__call__', 'ConfigScalarMeta._types'): 'idempotent memo of dynamically created scalar classes keyed by value type',
+    ('ConfigScalarMeta.__call__', 'ConfigScalarMeta._types'): 'memo of dynamically created scalar classes keyed by value type (check-then-act: two threads may each create the class for one value type; the two classes are interchangeable for everything the property observes - values, recorded file, safety - only `type(a) is type(b)` and the short repr of a node can tell them apart)',
     ('NamespaceableMeta.__init__', 'cls'): 'class creation time: installs the ayns namespace on the class being created',
     ('utils.add_module_properties', 'sys.modules'): 'import time only (called from awesomeyaml/__init__.py)',
     ('yaml.global_ctx', '_global_ctx'): 'only used when yaml.parse is called without a builder, which R3 excludes for builds',
